@@ -592,6 +592,14 @@ and run_case_model (oc : out_channel) (c : case) : unit =
           (match macro_build keqb items with
            | MOk (h2, g2) -> "ok " ^ graph_snap directed h2 g2
            | MPanic k -> Printf.sprintf "panic %d" (int_of_n k))
+      | "hm" when st.(1) = "3" ->
+          (* FL![(String) (a) => [String::from("b"), String::from("a")] (b) => []] with by-value String variables a, b *)
+          let items = [((n_of_int 1, z_of_int 0), [(n_of_int 2, n_of_int 0); (n_of_int 1, n_of_int 0)]); ((n_of_int 2, z_of_int 0), [])] in
+          (match macro_build keqb items with
+           | MOk (h2, _) ->
+               let deg u = int_of_nat (if directed then out_degree h2 u else degree_u h2 u) in
+               Printf.sprintf "ok a:%d b:%d" (deg O) (deg (S O))
+           | MPanic k -> Printf.sprintf "panic %d" (int_of_n k))
       | "hm" ->
           let ops = if st.(1) = "1" then
               [ONew (n_of_int 5, z_of_int 0); ONew (n_of_int 6, z_of_int 0);
